@@ -24,6 +24,7 @@ RULE = ('programs of 2-10 statements over host-supplied nested lists/dicts/tuple
 RULE += ' Right-hand sides also apply - * / ** and unary minus to containers, and host values contain members that cannot be deep-copied (a lock, a generator) next to nested lists.'
 RULE += ' Host values also include an OrderedDict, a defaultdict, a list subclass and a list nested 700 levels deep (deeper than copy.deepcopy can recurse).'
 RULE += ' Host containers include hashable list / dict subclasses (identity hash).'
+RULE += " One more workload: the repository's own test-suite, run in a worker process against the sandbox copy with this check's monitors installed (the tests' assertions are not the oracle, the monitors are)."
 ASSUMPTIONS = ['internal aliasing inside one stored value is legitimate; the invariant is about objects shared with the outside',
                'for compound forms the independent copy is that of the operand (the target list itself is extended in place by design)',
                'push/insert are not assignments (they store the same object) and are not judged here']
